@@ -226,6 +226,7 @@ func GenFlow(r *Rand, name string, o GenOpts) *Program {
 	p.Shadow = len(f.Params) > 0 && !f.SplitParams && r.Intn(100) < o.ShadowPct
 	if r.Intn(100) < o.BarePct {
 		p.Bare, p.Wrap = true, false
+		p.BareMix = r.PickInt(0, 2, 3, 4)
 	}
 	if !p.Bare && r.Intn(100) < o.ImportPct {
 		g.importize()
@@ -387,6 +388,9 @@ func (g *flowGen) finish() {
 	}
 	if p.Bare {
 		feat["bare"] = true
+		if p.BareMix > 0 {
+			feat["bare-with-mutating-calls"] = true
+		}
 	}
 	if p.Flow != nil && p.Flow.ResultsVia {
 		feat["results-via-field"] = true
@@ -511,6 +515,7 @@ func GenPar(r *Rand, name string, o GenOpts) *Program {
 	p.InMethod = !p.Generic && r.Chance(1, 6)
 	if r.Intn(100) < o.BarePct {
 		p.Bare, p.Wrap = true, false
+		p.BareMix = r.PickInt(0, 2, 3, 4)
 	}
 	g.finish()
 	return p
